@@ -466,7 +466,7 @@ impl AffinityKind {
     pub fn validate(&self) -> bool {
         let num_cpu = OS::get_total_num_cpus();
 
-        if let AffinityKind::RoundRobin(cpuset) = self {
+        if let AffinityKind::RoundRobin(cpuset) | AffinityKind::AllInSet(cpuset) = self {
             for cpu in cpuset {
                 if cpu >= &num_cpu {
                     return false;
